@@ -41,7 +41,17 @@ def dt_of(case, nH):
 
 def check_exact(case, rec):
     H = build_ham(case['ham'])
-    psi = build_mps(case['psi'])
+    pdesc = case['psi']
+    if case.get('inflate') and len(pdesc['qD']) >= 3:
+        # a redundant interior bond: extra copies of charges the bond already carries (the manifold stays complete, the state is the
+        # same kind of random element of it; the integrator only right-canonicalises, so a bond with D[i+1] > d D[i] survives into
+        # the sweep and the zero-site problems are rectangular)
+        qD = [list(q) for q in pdesc['qD']]
+        b = 1 + case['inflate'][0] % max(1, (len(qD) - 2) // 2)     # a bond in the left half: limited by its left side, so the extra states survive the right-canonicalisation
+        qD[b] = qD[b] + [qD[b][(case['inflate'][1] + k) % len(qD[b])] for k in range(1 + case['inflate'][1] % 3)]
+        pdesc = dict(pdesc, qD=qD)
+        rec.label('redundant_bond')
+    psi = build_mps(pdesc)
     L = len(psi.A); d = len(psi.qd)
     two = case['integrator'] == 'two'
     if two and L < 2:
@@ -115,6 +125,11 @@ def gen_exact(draw, tier):
     c['dtsign'] = draw(st.sampled_from([1, -1]))
     c['dtphase'] = draw(st.floats(0, 1))
     c['steps'] = draw(st.sampled_from([1, 2, 3, 4]))
+    c['inflate'] = draw(st.sampled_from([None, None, [0, 1], [1, 0], [2, 2], [1, 4]]))
+    if c['inflate'] and len(c['psi']['qD']) >= 4:
+        # rectangular zero-site problems only occur in the single-site integrator; a sizeable step makes an inexact local exponential visible
+        c['integrator'] = 'single'
+        c['dtx'] = draw(st.sampled_from([1.0, 0.3]))
     return c
 
 
